@@ -41,8 +41,8 @@ class C01Check:
     assumptions = ENGINE_ASSUMPTIONS
     components = ENGINE_COMPONENTS
     tiers = {
-        "quick": {"budget_s": 60, "runs_per_fork": 20, "run_timeout": 40, "shrink_budget": 60},
-        "thorough": {"budget_s": 900, "runs_per_fork": 20, "run_timeout": 40, "shrink_budget": 240},
+        "quick": {"budget_s": 60, "runs_per_fork": 20, "run_timeout": 120, "shrink_budget": 60},
+        "thorough": {"budget_s": 900, "runs_per_fork": 20, "run_timeout": 120, "shrink_budget": 240},
     }
     bias = None
     kwargs = {}
